@@ -190,6 +190,10 @@ func execC16(c *Ctx) {
 		// also: header doubled, header stripped
 		if ls != "" {
 			variants = append(variants, append(makeLabelHeader(ls, nil), g.Buf...), g.Buf[2+len(ls):])
+			if lr != "" && lr != ls {
+				// the sender's header replaced by the receiver's label (replay across logical clusters)
+				variants = append(variants, append(makeLabelHeader(lr, nil), g.Buf[2+len(ls):]...))
+			}
 		} else if lr != "" {
 			variants = append(variants, append(makeLabelHeader(lr, nil), g.Buf...), append(makeLabelHeader(lr, nil), append(makeLabelHeader(lr, nil), g.Buf...)...))
 		}
